@@ -30,6 +30,7 @@ type scaleInWatch struct {
 	uid     string
 	deleted map[string]bool
 	clean   bool
+	fromSeq int
 }
 
 type updRevObs struct {
@@ -77,10 +78,6 @@ func (s *Sim) afterStep(st Step) {
 	s.PairSet[mix(h, hashStr(st.K))] = struct{}{}
 	s.checkHelpers()
 }
-
-func (o *oracleState) noteScaleIn(s *Sim, set *asv1.StatefulSet, k int32) {}
-func (o *oracleState) noteUserEdit(s *Sim, kind, set string)           {}
-func (o *oracleState) atFixedPoint(s *Sim)                             {}
 
 // stateHash abstracts the cluster state (DESIGN.md §3.8).
 func (s *Sim) stateHash() uint64 {
